@@ -148,7 +148,7 @@ def proof_step(prop_file):
     returns dict(obligations, discharged, theorems=[(name, status)], log)"""
     src = open(os.path.join(COQ, prop_file)).read()
     wanted = re.findall(r"^Print Assumptions\s+(\w+)\.", src, flags=re.M)
-    stated = re.findall(r"^(?:Theorem|Lemma|Corollary)\s+(\w+)", src, flags=re.M)
+    stated = re.findall(r"^(?:Theorem|Lemma|Corollary|Example)\s+(\w+)", src, flags=re.M)
     rc, out = sh("timeout 900 coqc -Q . STS %s" % prop_file, cwd=COQ)
     res = dict(obligations=len(stated), discharged=0, theorems=[], log=out[-3000:], rc=rc)
     if rc != 0:
